@@ -148,7 +148,7 @@ def run_shard(acc, shard, nshards, seed, tier):
     @st.composite
     def cases(draw):
         kind = draw(st.sampled_from(KINDS))
-        n = draw(st.sampled_from([130, 150, 241, 300, 400, 600, 130, 150, 241, 300, 400, 600, 1500, 3500]))  # long inputs: length-dependent scaling only shows beyond ~1000 candles
+        n = draw(st.sampled_from([130, 150, 241, 300, 400, 600, 130, 150, 241, 300, 400, 600, 2049, 4097]))  # long inputs (length-dependent scaling shows beyond ~1000 candles), just above a power of two (block / FFT sizes)
         default = draw(st.sampled_from([True, False, False]))
         # prefix lengths first: compiled kernels do no bounds checking, so every period must fit the shortest prefix
         kmin = 100 if n > 100 else n - 10
